@@ -61,6 +61,7 @@ inductive Op
   | setComment (k : Key) (c : Nat)       -- COMMENT ON TABLE k IS c / ALTER TABLE k SET COMMENT = c
   | dropTable (k : Key)
   | dropView (k : Key)
+  | nop     -- a statement fakesnow answers with its success no-op (SET var, SET TAG, CREATE TAG, CLUSTER BY, column COMMENT, …) or USE SCHEMA
   deriving DecidableEq, Repr
 
 def World.find (w : World) (k : Key) : Option Tab := w.tabs.find? (·.key == k)
@@ -167,6 +168,7 @@ def step (w : World) : Op → Bool × World
     match w.find k with
     | some t => if t.isView then (true, { w with tabs := w.remove k }) else (false, w)
     | none => (false, w)
+  | .nop => (true, w)     -- no metadata effect at all
 
 def run (w : World) : List Op → World
   | [] => w
